@@ -7,6 +7,19 @@ V = os.path.dirname(os.path.dirname(os.path.abspath(__file__)))
 ALL = ["C%02d" % i for i in range(1, 21)]
 
 CHECKS = {
+    "C01": dict(
+        technique="Coq-verified erasure certificate: soundness theorem of the checker for every semantics satisfying explicit laws + one vm_compute certificate per rewritten program; differential oracle",
+        text="check_erase (model/Erase.v) takes the REAL output of pyccolo's rewriter for a program (exported from CPython ASTs) and erases every emit site, guard "
+             "conditional, NameError fallback, try/finally bracket, before_stmt expansion and saved-slice plumbing bottom-up, failing closed on any shape it does not "
+             "recognise and on any guard-off / fallback copy that differs from the instrumented branch; the result must equal the source after the three deliberate "
+             "source changes. C01_erase_sound (Qed, closed): for every semantics of Python ASTs and observational equivalence satisfying the listed laws "
+             "(non-interference of constructs, one validity law per instrumentation shape, the norm law), a passed check implies the rewritten program is equivalent "
+             "to the source. The quick check obtains such a certificate in coqc for every generated program x direct-event subset x guard setting (~120, all "
+             "constructs of the generator incl. classes, match, comprehensions, try/finally, nested functions), and the oracle runs plain vs instrumented.",
+        note="The universal claim over programs is established program by program (translation validation with a verified checker), not by one theorem about a model "
+             "of the rewriter; the laws are facts about CPython's evaluation, validated by the differential oracle, not proved. Trusted: Coq kernel + vm_compute; the "
+             "AST exporter (interning, id canonicalisation); translators for node kinds, event names and reserved identifiers.",
+        ref="DESIGN.md section 7 C01"),
     "C04": dict(
         technique="Coq proof (refinement of the runtime fold to the stated rule, induction over handler and tracer lists) with decision tables regenerated from source + in-coqc correspondence",
         text="C04_fold and C04_before_stmt are Qed-closed for every stack of tracers, handler list, outcome function and initial value. "
@@ -39,6 +52,15 @@ CHECKS = {
              "FUNCTION_TRACING_ENABLED staying in builtins as False are not counted as hooks or guards. sys.meta_path contents and importlib cache functions are "
              "observed on the implementation only (the model has a finder count).",
         ref="DESIGN.md section 7 C07"),
+    "C08": dict(
+        technique="Coq-verified erasure certificate for the thunk shapes + theorem on the regenerated _make_ret + override templates",
+        text="Semantics preservation of the fifteen deferred events uses the same verified certificate checker as C01 (C08_erase_sound), evaluated in coqc on "
+             "every generated program instrumented with subsets of the deferred events (zero-argument thunks, the two-argument binop thunk, the compare thunk). "
+             "C08_make_ret is proved about _make_ret as REGENERATED from emit_event.py on every run: a callable handler result is used as the computation, any "
+             "other value is wrapped into a constant computation, non-deferred events are unchanged. The oracle runs plain vs instrumented (the recorder calls "
+             "in generated expressions make evaluation count and order observable) and 72 override templates (15 events x thunk / functools.partial / value / Null / nothing).",
+        note="As C01. Comparison chains under before_compare are the recorded finding: the erasure refuses that shape.",
+        ref="DESIGN.md section 7 C08"),
     "C09": dict(
         technique="Coq proof (induction over frame trees with a relation between a frame's local trace function with and without pyccolo) on a model of CPython's trace protocol + composed tracers; correspondence against real sys.settrace runs",
         text="C09_handler_log: for every run (tree of frames with line/exception events and nested calls), every subscription subset of "
@@ -51,6 +73,15 @@ CHECKS = {
         note="Trusted: Coq kernel + vm_compute; the transcription of trace_trampoline (validated by the correspondence itself); hand transcription of "
              "_sys_tracer/_make_composed_tracer; harness. Mid-run installation and program results are decided by the oracle, not by a theorem; handlers are observing.",
         ref="DESIGN.md section 7 C09"),
+    "C10": dict(
+        technique="Coq-verified erasure certificate (guard branches must agree) + theorem characterising the guard rule + runs under guard schedules",
+        text="C10_guard_branches_agree: the erasure collapses a guard conditional (statement or expression form) only when the pristine branch, after the "
+             "deliberate source changes, is identical to the erasure of the instrumented branch. With C10_erase_sound (the C01 theorem) every certified "
+             "program is equivalent to its source whatever the guard flags are. The quick check certifies ~90 generated programs rewritten with guards "
+             "enabled and runs them with handlers that activate / deactivate the guards they are handed according to random schedules (results must equal the "
+             "plain run), plus silence templates (a function guard activated at invocation k silences invocations k+1..).",
+        note="As C01. Silence (no delivery while a guard is active) is decided by the templates, not by a theorem.",
+        ref="DESIGN.md section 7 C10"),
     "C14": dict(
         technique="Coq proof (fold invariant over the two Counters of fix_positions, any number of specs/occurrences) with refutation witnesses + in-coqc correspondence of both functions + placement-record oracle",
         text="C14_cols_partial: for every number of specs with arbitrary length changes, every application order and every multiset of occurrences on a "
